@@ -231,7 +231,7 @@ func checkC19(p *Prog, l *Ledger) {
 			default:
 				l.Violate("C19/S1-status", "main.runFile#flags", firstPos(w), "after run() the flags must be consulted as HadError, then HadRuntimeError; found ["+fl+"]: "+word)
 			}
-			if runCall && !hasOp(w, "call", func(e *Event) bool { return e.Args[0] == "main.run" && len(e.Args) == 3 && e.Args[2] == "false" }) {
+			if runCall && !hasOp(w, "call", func(e *Event) bool { return e.Args[0] == "main.run" && len(e.Args) == 3 && runReplFlag(p, e.Args[2]) == "false" }) {
 				l.Violate("C19/S1-status", "main.runFile#repl-flag", firstPos(w), "a script must run with isRepl=false: "+word)
 			}
 		}
@@ -689,4 +689,52 @@ func constantText(v ssa.Value, depth int) bool {
 		return x.Op == token.ADD && constantText(x.X, depth+1) && constantText(x.Y, depth+1)
 	}
 	return false
+}
+
+var replFlagCache = map[*Prog]map[string]string{}
+
+// runReplFlag: what main.run hands to Interpret as the "interactive" flag when its own mode parameter has the given
+// value (a boolean, or a small enum of which one constant means interactive): "true", "false", or something else.
+func runReplFlag(p *Prog, arg string) string {
+	if replFlagCache[p] == nil {
+		replFlagCache[p] = map[string]string{}
+	}
+	if v, ok := replFlagCache[p][arg]; ok {
+		return v
+	}
+	out := arg
+	fn := p.Func("main.run")
+	var av AV
+	switch {
+	case arg == "true":
+		av = BoolV(true)
+	case arg == "false":
+		av = BoolV(false)
+	default:
+		if k, err := strconv.ParseInt(arg, 10, 64); err == nil {
+			av = IntV(k)
+		} else {
+			fn = nil
+		}
+	}
+	if fn != nil && len(fn.Params) == 2 {
+		m := NewInterpModel(p, "run["+arg+"]")
+		m.MainMode = true
+		m.Explore(fn, []AV{Sym("source"), av}, nil)
+		vals := map[string]bool{}
+		for _, e := range m.G.Events("call") {
+			if strings.HasSuffix(e.Args[0], ").Interpret") && len(e.Args) >= 2 {
+				vals[e.Args[len(e.Args)-1]] = true
+			}
+		}
+		if len(vals) == 1 {
+			for v := range vals {
+				out = v
+			}
+		} else if len(vals) > 1 {
+			out = "varies"
+		}
+	}
+	replFlagCache[p][arg] = out
+	return out
 }
